@@ -12,7 +12,7 @@ sys.path.insert(0, HERE)
 class H:
     def __init__(self, name, module, prop, tier="quick", expect="pass", unwind=None, timeout=600,
                  timeout_thorough=3600, cost=30, bounds="", functions=(), allowed_fail=None,
-                 require_refusal=False, mem_gb=10, mem_gb_thorough=16, kani_flags=()):
+                 require_refusal=False, mem_gb=10, mem_gb_thorough=16, kani_flags=(), fallback_inputs=()):
         self.name, self.module, self.prop, self.tier, self.expect = name, module, prop, tier, expect
         self.unwind, self.timeout, self.timeout_thorough, self.cost = unwind, timeout, timeout_thorough, cost
         self.bounds, self.functions = bounds, list(functions)
@@ -24,6 +24,10 @@ class H:
         # the called trait method (without it CBMC also tries every function of a compatible signature, e.g.
         # Read::read_exact for a Write::write_all call through Box<dyn ReadWrite>)
         self.kani_flags = list(kani_flags)
+        # candidate inputs (one list of byte vectors per candidate, in kani::any() order) tried NATIVELY when the
+        # solver found a counterexample but its assignment cannot be extracted (trace generation out of memory):
+        # only used to confirm a solver-found failure on the real build, never to decide anything
+        self.fallback_inputs = list(fallback_inputs)
 
     @property
     def qualified(self):
@@ -60,10 +64,12 @@ HAND += [
     H("c04_decode_unknown_type", "c04", "C04", unwind=10, cost=520, timeout=1800, timeout_thorough=3600,
       bounds="compressed frame [1, 200, any, any] + 4 symbolic tail bytes in a BytesMut",
       functions=["insim::net::Codec::decode", "insim::net::Mode::decode_length", "<insim::Packet as BinRead>::read_options (all 73 variant attempts)",
-                 "bytes::BytesMut::split_to", "bytes::Buf::advance"]),
+                 "bytes::BytesMut::split_to", "bytes::Buf::advance"],
+      fallback_inputs=[[[0]] * 6, [[255]] * 6, [[1], [2], [3], [4], [5], [6]]]),
     H("c04_decode_unknown_type_uncompressed", "c04", "C04", tier="thorough", unwind=10, cost=520, timeout=1800, timeout_thorough=3600,
       bounds="uncompressed frame [4, 200, any, any] + 4 symbolic tail bytes in a BytesMut",
-      functions=["insim::net::Codec::decode", "insim::net::Mode::decode_length", "<insim::Packet as BinRead>::read_options"]),
+      functions=["insim::net::Codec::decode", "insim::net::Mode::decode_length", "<insim::Packet as BinRead>::read_options"],
+      fallback_inputs=[[[0]] * 6, [[255]] * 6, [[1], [2], [3], [4], [5], [6]]]),
 ]
 
 HAND += [
@@ -317,7 +323,8 @@ def _generated(include_unclosed=False):
         elif n.startswith("c02_plc_car_bit_"):
             tier = "quick" if n in ("c02_plc_car_bit_0", "c02_plc_car_bit_19") else "thorough"
         elif n.startswith(("c01_", "c02_")):
-            tier = "quick" if basic and t <= 100 else "thorough"
+            # cheap kinds, plus the irregular (hand-written reader/writer, many sub-fields) kinds even when dearer
+            tier = "quick" if basic and (t <= 100 or (kind in quick_kinds and t <= 400)) else "thorough"
         elif n.startswith("c04_"):
             tier = "quick" if basic and t <= 100 else "thorough"
         elif n.endswith("_codec"):
